@@ -7,15 +7,17 @@ From ASV.C20 Require Import Model Proofs.
    in the timings) the target is exactly what it was and the call ends in an error, which is logged and
    re-raised with the message when it is a TypeError and propagates unlogged otherwise; with no failing
    conversion the target holds the text of the converted data (or, for a path in a missing directory, open
-   fails and the target is still as it was) *)
+   fails and the target is still as it was; handle kind 5 is the OS-level write failure after truncation,
+   see C20_io_failure_after_truncation_loses_file) *)
 Theorem C20_write_atomic_wrt_conversion : forall records results tl hk w w' r,
   write_to_file records results tl hk w = (w', r) ->
   (conversion_fails records results tl = true ->
      w_file w' = w_file w /\
      exists k, r = Err k /\ (k = E_Type -> w_log w' = w_log w + 1) /\ (k <> E_Type -> w_log w' = w_log w)) /\
   (conversion_fails records results tl = false ->
-     (hk <> 3 -> r = Ok tt /\ w_file w' = CNew (expected_data records results)) /\
-     (hk = 3 -> r = Err E_Other /\ w_file w' = w_file w)).
+     (hk <> 3 -> hk <> 5 -> r = Ok tt /\ w_file w' = CNew (expected_data records results)) /\
+     (hk = 3 -> r = Err E_Other /\ w_file w' = w_file w) /\
+     (hk = 5 -> r = Err E_Other /\ w_file w' = CEmpty)).
 Proof. exact write_atomic. Qed.
 Print Assumptions C20_write_atomic_wrt_conversion.
 
@@ -27,7 +29,8 @@ Theorem C20_dump_records_atomic : forall records results hk w w' r,
   (conversion_fails_dump records results hk = false ->
      (hk = 4 -> r = Ok (expected_data records results) /\ w_file w' = w_file w) /\
      (hk = 3 -> r = Err E_Other /\ w_file w' = w_file w) /\
-     (hk <> 3 -> hk <> 4 ->
+     (hk = 5 -> r = Err E_Other /\ w_file w' = CEmpty) /\
+     (hk <> 3 -> hk <> 4 -> hk <> 5 ->
         r = Ok (expected_data records results) /\ w_file w' = CNew (expected_data records results))).
 Proof. exact dump_atomic. Qed.
 Print Assumptions C20_dump_records_atomic.
@@ -42,7 +45,7 @@ Theorem C20_open_after_all_conversions : forall records results tl hk w w' r,
     Forall (conv_ev (cstate (w_file w))) convs /\
     Forall io_ev io /\
     (io <> [] -> conversion_fails records results tl = false /\
-                 convs = all_conversions (cstate (w_file w)) records results tl /\ r = Ok tt).
+                 convs = all_conversions (cstate (w_file w)) records results tl /\ (hk <> 5 -> r = Ok tt)).
 Proof. exact write_trace. Qed.
 Print Assumptions C20_open_after_all_conversions.
 
@@ -53,34 +56,74 @@ Theorem C20_conversions_do_not_touch_target : forall records results tl w,
 Proof. exact conv_like_convert_all. Qed.
 Print Assumptions C20_conversions_do_not_touch_target.
 
+(* the limit of the guarantee, stated rather than hidden: when every conversion succeeds but the operating
+   system fails the write after open(path, "w") has truncated the file (handle kind 5: no space left on
+   device), the previous results are lost and the OSError propagates unlogged.  The property speaks about
+   conversion failures only; this is the behaviour of the code for the I/O failure it does not speak about *)
+Theorem C20_io_failure_after_truncation_loses_file : forall records results tl w w' r,
+  conversion_fails records results tl = false ->
+  write_to_file records results tl 5 w = (w', r) ->
+  r = Err E_Other /\ w_file w' = CEmpty /\ w_log w' = w_log w.
+Proof. exact io_failure_loses_file. Qed.
+Print Assumptions C20_io_failure_after_truncation_loses_file.
+
 (* refusal: fresh input (not a .json), the output directory exists, and some entry is neither the input
-   directory nor the log file: AntismashInputError and the listing is unchanged.
-   Guard: every entry is visible to glob "*" and the directory name is not itself a glob pattern *)
-Theorem C20_refuse : forall dmeta entries,
-  dir_guard dmeta entries = true -> existsb foreign entries = true ->
-  prepare_output_directory 1 false dmeta entries = (Err E_Input, 1, entries).
+   directory nor the log file (= the very path given with --logfile): AntismashInputError and the listing is
+   unchanged.  Guard: every entry is visible to glob "*", the directory name is not itself a glob pattern, and
+   it is not the case that no log file was asked for while the current directory is an entry *)
+Theorem C20_refuse : forall v dmeta entries,
+  dir_guard v dmeta entries = true -> existsb (foreign v) entries = true ->
+  prepare_output_directory v 1 false dmeta entries = (Err E_Input, 1, entries).
 Proof. exact refuse_fresh. Qed.
 Print Assumptions C20_refuse.
 
+(* the log-file exemption is exact: an entry escapes the emptiness test iff it is the input directory or
+   its absolute path equals the absolute path of config.logfile - a base name is not enough *)
+Theorem C20_log_exemption_exact : forall v e,
+  ignore_patterns v e = false <->
+  (en_input e = true /\ en_isdir e = true) \/ entry_path e = abspath_logfile v.
+Proof. exact ignore_exact. Qed.
+Print Assumptions C20_log_exemption_exact.
+
+(* --logfile points somewhere else (not directly into the output directory): every visible entry other than
+   the input directory makes the run refuse, whatever the entry is called - in particular a file or
+   directory that merely has the log file's name *)
+Theorem C20_refuse_log_elsewhere : forall v entries,
+  lg_given v = true -> p_dir (lg_path v) <> 0 ->
+  forallb en_visible entries = true ->
+  existsb (fun e => negb (en_input e && en_isdir e)) entries = true ->
+  prepare_output_directory v 1 false false entries = (Err E_Input, 1, entries).
+Proof. exact refuse_log_elsewhere. Qed.
+Print Assumptions C20_refuse_log_elsewhere.
+
 (* outside the guard the statement is false of the code: a foreign dot file is not seen ... *)
 Theorem C20_refuse_hidden_refuted :
-  exists entries, existsb foreign entries = true /\
-                  prepare_output_directory 1 false false entries = (Ok tt, 1, entries).
+  exists entries, existsb (foreign env_nolog) entries = true /\
+                  prepare_output_directory env_nolog 1 false false entries = (Ok tt, 1, entries).
 Proof. exact refuse_hidden_refuted. Qed.
 Print Assumptions C20_refuse_hidden_refuted.
 
-(* ... and a directory whose name contains glob metacharacters looks empty *)
+(* ... a directory whose name contains glob metacharacters looks empty ... *)
 Theorem C20_refuse_globname_refuted :
-  exists entries, existsb foreign entries = true /\ forallb en_visible entries = true /\
-                  prepare_output_directory 1 false true entries = (Ok tt, 1, entries).
+  exists entries, existsb (foreign env_nolog) entries = true /\ forallb en_visible entries = true /\
+                  prepare_output_directory env_nolog 1 false true entries = (Ok tt, 1, entries).
 Proof. exact refuse_globname_refuted. Qed.
 Print Assumptions C20_refuse_globname_refuted.
 
+(* ... and with the default empty logfile os.path.abspath("") is the current directory, so a (visible,
+   foreign) sub-directory of the output directory that happens to be the current directory is exempted *)
+Theorem C20_refuse_cwd_refuted :
+  exists v entries, lg_given v = false /\ existsb (foreign v) entries = true /\
+                    forallb en_visible entries = true /\
+                    prepare_output_directory v 1 false false entries = (Ok tt, 1, entries).
+Proof. exact refuse_cwd_refuted. Qed.
+Print Assumptions C20_refuse_cwd_refuted.
+
 (* in every mode and whatever the outcome (accepted, refused, os.remove failing half way): nothing is added
    to an existing directory and only entries matched by "*.region???.gbk" can disappear *)
-Theorem C20_only_region_files_removed : forall reuse dmeta entries r k' es,
+Theorem C20_only_region_files_removed : forall v reuse dmeta entries r k' es,
   NoDup (ids entries) ->
-  prepare_output_directory 1 reuse dmeta entries = (r, k', es) ->
+  prepare_output_directory v 1 reuse dmeta entries = (r, k', es) ->
   k' = 1 /\ (forall e, In e es -> In e entries) /\
   (forall e, In e entries -> (en_visible e && en_region e) = false -> In e es).
 Proof. exact prepare_only_removes_region. Qed.
@@ -88,22 +131,85 @@ Print Assumptions C20_only_region_files_removed.
 
 (* an accepted directory (reuse mode with any content, or fresh mode with nothing foreign), all entries
    visible, no directory named like a region file: success, and exactly the region GenBank files go *)
-Theorem C20_accept_removes_region_files : forall reuse entries,
+Theorem C20_accept_removes_region_files : forall v reuse entries,
   NoDup (ids entries) ->
   forallb en_visible entries = true ->
-  (reuse = true \/ existsb foreign entries = false) ->
+  (reuse = true \/ existsb (foreign v) entries = false) ->
   forallb (fun e => negb (en_region e && en_isdir e)) entries = true ->
-  prepare_output_directory 1 reuse false entries =
+  prepare_output_directory v 1 reuse false entries =
   (Ok tt, 1, filter (fun e => negb (en_region e)) entries).
 Proof. exact prepare_accept. Qed.
 Print Assumptions C20_accept_removes_region_files.
 
 (* a missing path is created; a path that exists and is not a directory is refused and left alone *)
-Theorem C20_not_a_directory : forall kind reuse dmeta entries,
-  (kind = 0 -> prepare_output_directory kind reuse dmeta entries = (Ok tt, 1, [])) /\
-  (kind <> 0 -> kind <> 1 -> prepare_output_directory kind reuse dmeta entries = (Err E_Input, kind, entries)).
+Theorem C20_not_a_directory : forall v kind reuse dmeta entries,
+  (kind = 0 -> prepare_output_directory v kind reuse dmeta entries = (Ok tt, 1, [])) /\
+  (kind <> 0 -> kind <> 1 -> prepare_output_directory v kind reuse dmeta entries = (Err E_Input, kind, entries)).
 Proof. exact prepare_not_directory. Qed.
 Print Assumptions C20_not_a_directory.
+
+(* ---- the pipeline: main._run_antismash ---- *)
+
+(* order of the run, for every plan of stage faults, every directory and every conversion plan: the new
+   events are  pre ++ mid ++ convs ++ io ++ post  with pre = the stages up to prepare_output_directory
+   (codes 20-23), mid = pre-processing / detection / analysis (24-26), convs = the conversions of
+   write_to_file, io = open/write of the JSON, post = annotate_records / write_outputs / profiling (28-30);
+   - anything after pre happens only if prepare_output_directory accepted, and pre then ends with it
+     (prepare_output_directory before any write);
+   - every event up to and including the conversions sees the JSON target as it was;
+   - open/write happen only after ALL conversions of the plan, none of which failed;
+   - annotate_records / write_outputs / profiling happen only once the new JSON is in place (they see state 3)
+     (json written before annotate_records / write_outputs);
+   - a failing conversion leaves the JSON target untouched, nothing of io/post happens, the run does not
+     return 0;  return code 0 implies accepted directory, no failing conversion, new JSON in place *)
+Theorem C20_pipeline_order : forall pl v kind reuse dmeta entries records results hk w w' r kd es,
+  run_antismash pl v kind reuse dmeta entries records results hk w = (w', r, kd, es) ->
+  exists pre mid convs io post,
+    w_trace w' = w_trace w ++ pre ++ mid ++ convs ++ io ++ post /\
+    Forall (stage_ev 20 23 (cstate (w_file w))) pre /\
+    Forall (stage_ev 24 26 (cstate (w_file w))) mid /\
+    Forall (conv_ev (cstate (w_file w))) convs /\
+    Forall io_ev io /\
+    Forall (stage_ev 28 30 3) post /\
+    (mid ++ convs ++ io ++ post <> [] ->
+       prepare_output_directory v kind reuse dmeta entries = (Ok tt, kd, es) /\
+       exists pre', pre = pre' ++ [mkEv ST_PREPARE 0 0 (cstate (w_file w))]) /\
+    (io <> [] -> conversion_fails records results 0 = false /\
+                 convs = all_conversions (cstate (w_file w)) records results 0) /\
+    (post <> [] -> conversion_fails records results 0 = false /\ hk <> 3 /\ hk <> 5 /\
+                   w_file w' = CNew (expected_data records results)) /\
+    (conversion_fails records results 0 = true ->
+       w_file w' = w_file w /\ io = [] /\ post = [] /\ r <> Ok 0) /\
+    (r = Ok 0 -> prepare_output_directory v kind reuse dmeta entries = (Ok tt, kd, es) /\
+                 conversion_fails records results 0 = false /\
+                 w_file w' = CNew (expected_data records results)).
+Proof. exact run_antismash_trace. Qed.
+Print Assumptions C20_pipeline_order.
+
+(* whenever prepare_output_directory raises (foreign content, not a directory, os.remove failing), the run
+   ends there: JSON target and log as they were, only stages up to prepare_output_directory in the trace,
+   the directory as prepare_output_directory left it (or as it was, when the run ended even earlier) *)
+Theorem C20_pipeline_stops_at_refusal :
+  forall pl v kind reuse dmeta entries records results hk w w' r kd es k kp esp,
+  prepare_output_directory v kind reuse dmeta entries = (Err k, kp, esp) ->
+  run_antismash pl v kind reuse dmeta entries records results hk w = (w', r, kd, es) ->
+  w_file w' = w_file w /\ w_log w' = w_log w /\ r <> Ok 0 /\
+  (kd = kp /\ es = esp \/ kd = kind /\ es = entries) /\
+  exists pre, w_trace w' = w_trace w ++ pre /\ Forall (stage_ev 20 23 (cstate (w_file w))) pre.
+Proof. exact run_antismash_refused. Qed.
+Print Assumptions C20_pipeline_stops_at_refusal.
+
+(* the second clause of the property for the whole run: fresh input, existing directory with foreign content
+   (inside the guard of C20_refuse), ANY plan: the run does not succeed, listing, JSON target and log are
+   untouched, nothing after prepare_output_directory happens *)
+Theorem C20_pipeline_foreign_directory_untouched :
+  forall pl v dmeta entries records results hk w w' r kd es,
+  dir_guard v dmeta entries = true -> existsb (foreign v) entries = true ->
+  run_antismash pl v 1 false dmeta entries records results hk w = (w', r, kd, es) ->
+  r <> Ok 0 /\ kd = 1 /\ es = entries /\ w_file w' = w_file w /\ w_log w' = w_log w /\
+  exists pre, w_trace w' = w_trace w ++ pre /\ Forall (stage_ev 20 23 (cstate (w_file w))) pre.
+Proof. exact run_antismash_foreign. Qed.
+Print Assumptions C20_pipeline_foreign_directory_untouched.
 
 (* ---- non-vacuity ---- *)
 
@@ -137,24 +243,100 @@ Example C20_ex_success :
         mkEv 6 0 0 1; mkEv 7 0 0 1; mkEv 8 0 0 1; mkEv 9 0 0 2], Ok tt).
 Proof. split; vm_compute; reflexivity. Qed.
 
-(* a directory holding the input copy, the log file and one foreign file meets the hypotheses of C20_refuse *)
+(* a directory holding the input copy, the log file (--logfile out/run.log, name 1) and one foreign file
+   meets the hypotheses of C20_refuse *)
 Example C20_ex_refuse :
-  let entries := [mkE 0 true true true false false; mkE 1 true false false true false;
-                  mkE 2 true false false false false] in
-  dir_guard false entries = true /\ existsb foreign entries = true /\ NoDup (ids entries).
+  let v := mkEnv true (mkP 0 1) (mkP 9 99) in
+  let entries := [mkE 0 0 true true true false; mkE 1 1 true false false false;
+                  mkE 2 2 true false false false] in
+  dir_guard v false entries = true /\ existsb (foreign v) entries = true /\ NoDup (ids entries) /\
+  map (foreign v) entries = [false; false; true].
 Proof.
-  split; [reflexivity|]. split; [reflexivity|].
+  split; [reflexivity|]. split; [reflexivity|]. split; [|reflexivity].
   repeat constructor; cbn; intuition discriminate.
 Qed.
 
+(* --logfile logs/run.log (directory 9, name 1) while the output directory holds the input copy and a file
+   that is also called run.log: the hypotheses of C20_refuse_log_elsewhere hold - refused *)
+Example C20_ex_same_name_elsewhere :
+  let v := mkEnv true (mkP 9 1) (mkP 9 99) in
+  let entries := [mkE 0 0 true true true false; mkE 1 1 true false false false] in
+  lg_given v = true /\ p_dir (lg_path v) <> 0 /\ forallb en_visible entries = true /\
+  existsb (fun e => negb (en_input e && en_isdir e)) entries = true /\
+  prepare_output_directory v 1 false false entries = (Err E_Input, 1, entries).
+Proof. split; [reflexivity|]. split; [discriminate|]. split; [reflexivity|]. split; reflexivity. Qed.
+
+(* the same directory with --logfile out/run.log is accepted: nothing foreign *)
+Example C20_ex_log_inside_accepted :
+  let v := mkEnv true (mkP 0 1) (mkP 9 99) in
+  let entries := [mkE 0 0 true true true false; mkE 1 1 true false false false] in
+  existsb (foreign v) entries = false /\
+  prepare_output_directory v 1 false false entries = (Ok tt, 1, entries).
+Proof. split; reflexivity. Qed.
+
 (* reuse mode: two region files and a foreign file meet the hypotheses of C20_accept_removes_region_files *)
 Example C20_ex_reuse :
-  let entries := [mkE 0 true false false false true; mkE 1 true false false false false;
-                  mkE 2 true false false false true] in
+  let entries := [mkE 0 0 true false false true; mkE 1 1 true false false false;
+                  mkE 2 2 true false false true] in
   NoDup (ids entries) /\ forallb en_visible entries = true /\
   forallb (fun e => negb (en_region e && en_isdir e)) entries = true /\
-  prepare_output_directory 1 true false entries = (Ok tt, 1, [mkE 1 true false false false false]).
+  prepare_output_directory env_nolog 1 true false entries = (Ok tt, 1, [mkE 1 1 true false false false]).
 Proof.
   split; [repeat constructor; cbn; intuition discriminate|].
   split; [reflexivity|]. split; reflexivity.
 Qed.
+
+(* the I/O failure after truncation: a fault-free plan on handle kind 5 meets the hypothesis of
+   C20_io_failure_after_truncation_loses_file; open and write are the last two events *)
+Example C20_ex_io_failure :
+  let records := [mkR 0 0 0 0 false] in
+  let results := [[mkM 2 0 11 0]] in
+  conversion_fails records results 0 = false /\
+  write_to_file records results 0 5 (initial_world 5) =
+  (mkW CEmpty 0 [mkEv 1 0 0 1; mkEv 2 0 0 1; mkEv 3 0 0 1; mkEv 4 0 0 1; mkEv 5 0 0 1;
+                 mkEv 8 0 0 1; mkEv 9 0 0 2], Err E_Other).
+Proof. split; vm_compute; reflexivity. Qed.
+
+(* a complete run in reuse mode on a directory holding the old JSON (entry 0), a stale region file and a
+   foreign file: accepted, the region file goes, two records (the second without regions), the JSON is
+   replaced before annotate_records (28) and write_outputs (29) happen *)
+Example C20_ex_pipeline_success :
+  let pl := mkPP 0 true 0 0 [mkRP false 0 true 0; mkRP false 0 false 0] 0 0 false in
+  let entries := [mkE 0 0 true false false false; mkE 1 1 true false false true; mkE 2 2 true false false false] in
+  let records := [mkR 0 0 0 0 false; mkR 0 0 0 0 false] in
+  let results := [[mkM 2 0 11 0]; []] in
+  run_antismash pl env_nolog 1 true false entries records results 0 (initial_world 0) =
+  (mkW (CNew [(false, [mkMJ 0 11 0]); (false, [])]) 0
+       [mkEv 20 0 0 1; mkEv 21 0 0 1; mkEv 22 0 0 1; mkEv 23 0 0 1; mkEv 24 0 0 1;
+        mkEv 25 0 0 1; mkEv 26 0 0 1; mkEv 25 1 0 1;
+        mkEv 1 0 0 1; mkEv 2 0 0 1; mkEv 3 0 0 1; mkEv 4 0 0 1; mkEv 5 0 0 1;
+        mkEv 1 1 0 1; mkEv 2 1 0 1; mkEv 3 1 0 1; mkEv 4 1 0 1;
+        mkEv 8 0 0 1; mkEv 9 0 0 2; mkEv 28 0 0 3; mkEv 29 0 0 3],
+   Ok 0, 1, [mkE 0 0 true false false false; mkE 2 2 true false false false]).
+Proof. vm_compute. reflexivity. Qed.
+
+(* the same directory on a fresh run meets the hypotheses of C20_pipeline_foreign_directory_untouched and the
+   run ends with AntismashInputError right after prepare_output_directory *)
+Example C20_ex_pipeline_refused :
+  let pl := mkPP 0 true 0 0 [mkRP false 0 true 0] 0 0 false in
+  let entries := [mkE 0 0 true false false false; mkE 1 1 true false false true; mkE 2 2 true false false false] in
+  dir_guard env_nolog false entries = true /\ existsb (foreign env_nolog) entries = true /\
+  run_antismash pl env_nolog 1 false false entries [mkR 0 0 0 0 false] [[mkM 2 0 11 0]] 0 (initial_world 0) =
+  (mkW COld 0 [mkEv 20 0 0 1; mkEv 21 0 0 1; mkEv 22 0 0 1; mkEv 23 0 0 1], Err E_Input, 1, entries).
+Proof. split; [reflexivity|]. split; [reflexivity|]. vm_compute. reflexivity. Qed.
+
+(* a failing conversion in the middle of a run reusing the results in the output directory (second record's
+   module raises KeyError; the second record is skipped by the analysis but still converted): the old JSON stays,
+   annotate_records and write_outputs never happen *)
+Example C20_ex_pipeline_conversion_fault :
+  let pl := mkPP 0 true 0 0 [mkRP false 0 true 0; mkRP true 0 false 0] 0 0 true in
+  let records := [mkR 0 0 0 0 false; mkR 0 0 0 0 false] in
+  let results := [[mkM 2 0 11 0]; [mkM 2 4 12 0]] in
+  conversion_fails records results 0 = true /\
+  run_antismash pl env_nolog 1 true false [mkE 0 0 true false false false] records results 0 (initial_world 0) =
+  (mkW COld 0 [mkEv 20 0 0 1; mkEv 21 0 0 1; mkEv 22 0 0 1; mkEv 23 0 0 1; mkEv 24 0 0 1;
+               mkEv 25 0 0 1; mkEv 26 0 0 1;
+               mkEv 1 0 0 1; mkEv 2 0 0 1; mkEv 3 0 0 1; mkEv 4 0 0 1; mkEv 5 0 0 1;
+               mkEv 1 1 0 1; mkEv 2 1 0 1; mkEv 3 1 0 1; mkEv 4 1 0 1; mkEv 5 1 0 1], Err E_Key, 1,
+   [mkE 0 0 true false false false]).
+Proof. split; vm_compute; reflexivity. Qed.
